@@ -74,6 +74,10 @@ def dnode(d):
 
 
 def case(o):
+    if o.get("gated"):
+        log = "[" + "; ".join(call(k) for k in o["log"]) + "]"
+        probes = "[" + ";\n    ".join(step(s) for s in o["probes"]) + "]"
+        return "CGated %s\n   %s\n   %d %s %d" % (log, probes, o["nhandles"], coq_bool(o["returned"]), min(o["gdelta"], 1000))
     inj = "[" + "; ".join("(%d, %d)" % (i[0], i[1]) for i in o["inject"]) + "]"
     steps = "[" + ";\n    ".join(step(s) for s in o["steps"]) + "]"
     dump = "[" + "; ".join(dnode(d) for d in o["dump"]) + "]"
